@@ -1,15 +1,18 @@
 import QuinnModel.Lemmas.InFlight
 import QuinnModel.Lemmas.Controllers
 import QuinnModel.Lemmas.Gate
+import QuinnModel.Lemmas.LossDetection
 /-
 C12 — Sending respects the congestion window; loss accounting balances.   (property theorems only)
 
 Part 1: `SentPackets` is a finite map; every packet handed to `PathData::sent` is resolved
 exactly once (acknowledged, lost, or abandoned = discarded with its space / forgotten non-ack-eliciting
 tail) and the path's in-flight counters are exactly the totals over the packets still tracked.
-Part 2: the built-in controllers never report a window below two datagrams (NewReno, Cubic: proved for all
-call histories and all values of the float-derived quantities; BBR: false on the current tree, F7).
+Part 2: the built-in controllers never report a window below two datagrams, from construction on, for all
+call histories and all values of the float-derived quantities (F7 repaired in bbr/mod.rs).
 Part 3: what the congestion test of `poll_transmit` guarantees.
+Part 4: the packet- and time-threshold loss decision of `detect_lost_packets` declares nothing lost on a loss-free
+in-order path, and tolerates reordering within its thresholds.
 -/
 namespace QM.Props.C12
 open QM QM.SentPackets QM.InFlight
@@ -125,37 +128,36 @@ theorem cubic_floor (ops : List CubicOp) (c : Cubic) (h : 2 * c.mtu ≤ c.st.win
     2 * (c.run ops).mtu ≤ (c.run ops).st.window :=
   cubic_run_floor ops c h
 
-/-- the default configurations satisfy the initial hypothesis at the default initial MTU (1200), in fact
-    for every initial MTU up to initial_window / 2 -/
-theorem floor_initial_hypothesis_witness (mtu : Nat) :
-    (2 * mtu ≤ Gen.newRenoDefaultInitialWindow → 2 * (Reno.new mtu).mtu ≤ (Reno.new mtu).window) ∧
-    (2 * mtu ≤ Gen.cubicDefaultInitialWindow → 2 * (Cubic.new mtu).mtu ≤ (Cubic.new mtu).st.window) ∧
-    (2 * mtu ≤ Gen.bbrDefaultInitialWindow → (Bbr.new mtu).Inv) ∧
-    2 * Gen.baseDatagramSize ≤ Gen.newRenoDefaultInitialWindow ∧
-    2 * Gen.baseDatagramSize ≤ Gen.cubicDefaultInitialWindow ∧
-    2 * Gen.baseDatagramSize ≤ Gen.bbrDefaultInitialWindow :=
-  ⟨fun h => h, fun h => h, bbr_new_inv mtu, by decide, by decide, by decide⟩
+/-- the initial hypothesis holds unconditionally: the constructors start at
+    `max(configured initial window, minimum window)`, for EVERY configured window and EVERY initial MTU -/
+theorem floor_initial_hypothesis_witness (initialWindow mtu : Nat) :
+    2 * (Reno.newWith initialWindow mtu).mtu ≤ (Reno.newWith initialWindow mtu).window ∧
+    2 * (Cubic.newWith initialWindow mtu).mtu ≤ (Cubic.newWith initialWindow mtu).st.window ∧
+    (Bbr.newWith initialWindow mtu).Inv :=
+  ⟨reno_newWith_floor initialWindow mtu, cubic_newWith_floor initialWindow mtu, bbr_newWith_inv initialWindow mtu⟩
 
-/-- BBR, full statement — FALSE of the code as it is (F7): `f7Witness` (confirmed on the real `Bbr`,
-    /verif/corpus/cc/F7.ops) ends with `window() = 4800 < 2·9000` -/
-theorem bbr_floor_counterexample : ¬ bbr_floor_statement :=
-  bbr_floor_counterexample'
+/-- NewReno / Cubic from construction: for every configured window, initial MTU and call history -/
+theorem newreno_cubic_floor_from_new (initialWindow mtu : Nat) (ro : List RenoOp) (co : List CubicOp) :
+    2 * ((Reno.newWith initialWindow mtu).run ro).mtu ≤ ((Reno.newWith initialWindow mtu).run ro).window ∧
+    2 * ((Cubic.newWith initialWindow mtu).run co).mtu ≤ ((Cubic.newWith initialWindow mtu).run co).st.window :=
+  ⟨reno_run_floor ro _ (reno_newWith_floor initialWindow mtu), cubic_run_floor co _ (cubic_newWith_floor initialWindow mtu)⟩
 
-/-- BBR, what holds: the floor is kept by every history in which no `on_mtu_update` *increases* the MTU
-    while `recovery_state != NotInRecovery` (`Bbr.SafeRun`); missing for the full statement: exactly that
-    family (`on_mtu_update` does not raise `recovery_window`) -/
-theorem bbr_floor_partial (mtu0 : Nat) (ops : List BbrOp) (c : Bbr) (tc : Option Nat) (w : Nat)
-    (h0 : 2 * mtu0 ≤ Gen.bbrDefaultInitialWindow) (hs : (Bbr.new mtu0).SafeRun ops)
-    (hr : (Bbr.new mtu0).run ops = some c) (hw : c.window tc = some w) : 2 * c.mtu ≤ w :=
-  bbr_floor_partial' mtu0 ops c tc w h0 hs hr hw
+/-- BBR (after the F7 repair: `on_mtu_update` raises `recovery_window` with `min_cwnd`): `window()` is at
+    least two datagrams after every call history (no call ending in an overflow panic), for every configured
+    initial window, every initial MTU, every MTU change and ALL values of the opaque float-derived inputs
+    (`tc`, target windows, the mode machine) -/
+theorem bbr_floor (initialWindow mtu0 : Nat) (ops : List BbrOp) (c : Bbr) (tc : Option Nat) (w : Nat)
+    (hr : (Bbr.newWith initialWindow mtu0).run ops = some c) (hw : c.window tc = some w) : 2 * c.mtu ≤ w :=
+  bbr_floor' initialWindow mtu0 ops c tc w hr hw
 
 -- non-vacuity
 example : (Reno.new 1200).run [.ack 5 1200 false, .cong 10 7 false false 1200, .mtu 9000, .cong 20 15 true false 9000]
     = { mtu := 9000, window := 18000, ssthresh := 18000, rst := 20, bytesAcked := 0 } := by decide
 example : ((Cubic.new 1200).run [.cong 10 7 false false 1200 (some ⟨8400, 0, none⟩),
       .ack 20 15 1200 false (some ⟨false, 0, 9000, some 85⟩), .mtu 9000, .spurious]).st.window = 18000 := by decide
-example : (Bbr.new 1200).SafeRun (f7Witness.dropLast) ∧ ¬ (Bbr.new 1200).SafeRun f7Witness :=
-  ⟨by decide, f7_unsafe⟩
+example : (Reno.new 9000).window = 18000 ∧ (Cubic.new 65535).st.window = 131070 ∧ (Bbr.new 65535).cwnd = 262140 := by decide
+-- the former F7 history now ends in recovery, PROBE_BW, with recovery_window = 36000 and window() = 36000 ≥ 18000
+example : ((Bbr.new 1200).run f7Witness).bind (fun c => c.window none) = some 36000 := f7_window
 
 end controllers
 
@@ -186,5 +188,40 @@ theorem cc_gate_burst (window : Nat) (sizes : List (Nat × Nat)) (inFlight : Nat
 example : admitted 10558 1442 12000 = false ∧ admitted 10557 1442 12000 = true := by decide
 
 end gate
+
+
+/-! ## the loss decision of `detect_lost_packets` (generated expressions; `rtt·time_threshold` opaque) -/
+section loss
+open QM.LossDetection
+
+/-- the decision, spelled out: a tracked packet is declared lost iff it is below the largest acknowledged
+    packet and (it was sent at least `loss_delay` ago, or at least `packet_threshold` newer numbers are
+    acknowledged); `loss_delay ≥ TIMER_GRANULARITY` whatever the float-derived `rtt·time_threshold` is -/
+theorem loss_decision (now largest thr scaledRtt : Nat) (p : Nat × Nat) :
+    (declaredLost now largest thr (lossDelay scaledRtt) p = true ↔
+      p.1 < largest ∧ (lossDelay scaledRtt ≤ now - p.2 ∨ p.1 + thr ≤ largest)) ∧
+    Gen.c12TimerGranularityNs ≤ lossDelay scaledRtt ∧ scaledRtt ≤ lossDelay scaledRtt :=
+  ⟨declaredLost_iff now largest thr (lossDelay scaledRtt) p, lossDelay_ge scaledRtt⟩
+
+/-- reordering by fewer than `packet_threshold` packets and less than `loss_delay` never causes a loss
+    declaration -/
+theorem reordering_within_thresholds_tolerated (now largest thr delay : Nat) (p : Nat × Nat)
+    (hp : largest < p.1 + thr) (ht : now - p.2 < delay) : declaredLost now largest thr delay p = false :=
+  not_lost_within_thresholds now largest thr delay p hp ht
+
+/-- on a loss-free in-order path (every ACK frame acknowledges a prefix of what was sent) no packet is ever
+    declared lost: for ALL send/ack/loss-timer schedules, all packet thresholds, all timestamps (so in
+    particular any constant delay) and all values of the float-derived `rtt·time_threshold` -/
+theorem no_spurious_loss (thr : Nat) (evs : List Ev) (hw : WF thr {} evs) : (run thr {} evs).lost = [] :=
+  (run_inv thr evs {} inv_init hw).nolost
+
+-- non-vacuity: delayed cumulative ACKs, a stale ACK, timers long after; and a reordered ACK that DOES declare
+-- a loss (outside the hypothesis: it skips packet 0 — here modelled by tracking 0 again after the ack)
+example : WF 3 {} [.send 0 0, .send 5 1, .send 9 2, .ack 100 1 50, .send 120 4, .timer 5000000000 1, .ack 130 4 0, .ack 131 2 7] := by
+  simp only [WF, wf, step]; decide
+example : detect [(0, 0), (5, 10)] 2000000 3 3 0 = [0] ∧ detect [(0, 0), (5, 10)] 999999 2 3 0 = [] := by decide
+example : Gen.defaultPacketThreshold = 3 ∧ Gen.c12TimerGranularityNs = 1000000 := by decide
+
+end loss
 
 end QM.Props.C12
